@@ -69,8 +69,93 @@ def _comp_parts(e):
             return v, ast.Name(id="_g_item", ctx=ast.Store()), inner, []
     if isinstance(e, (ast.ListComp, ast.GeneratorExp)) and len(e.generators) == 1 and not e.generators[0].is_async:
         gen = e.generators[0]
-        return e.elt, gen.target, gen.iter, list(gen.ifs)
+        elt, target, it, ifs = e.elt, gen.target, gen.iter, list(gen.ifs)
+        # a comprehension over a generator expression is one comprehension: (H for t in (E for u in G if F) if K) ==
+        # (H[t:=E] for u in G if F if K[t:=E])
+        while isinstance(it, ast.GeneratorExp) and len(it.generators) == 1 and not it.generators[0].is_async and isinstance(target, ast.Name):
+            ig = it.generators[0]
+            if not isinstance(ig.target, ast.Name):
+                break
+            t, u = target.id, ig.target.id
+            outer_names = {n.id for x in [elt] + ifs for n in ast.walk(x) if isinstance(n, ast.Name)}
+            if t != u and u in outer_names:
+                break  # the inner variable would capture an outer name
+            ren = _Rename({t: it.elt})
+            elt = ren.visit(copy.deepcopy(elt))
+            ifs = list(ig.ifs) + [ren.visit(copy.deepcopy(c)) for c in ifs]
+            target, it = ig.target, ig.iter
+        return elt, target, it, ifs
     return None
+
+
+def _count_loads(node, name):
+    return sum(1 for n in ast.walk(node) if isinstance(n, ast.Name) and n.id == name and isinstance(n.ctx, ast.Load))
+
+
+def _has_call(node):
+    return any(isinstance(n, (ast.Call, ast.Await, ast.Yield, ast.YieldFrom, ast.NamedExpr)) for n in ast.walk(node))
+
+
+def split_lazy_rebinding(P, f, body):
+    """`X = <lazy>; if C: X = (.. for .. in X ..); <use of X>` is `if C: <use of the composed pipeline> else: <use of the
+    first>`: nothing of a generator pipeline runs before it is consumed, so substituting the definitions into the single
+    consuming statement changes nothing.  Only top-level statement runs of exactly that shape are rewritten (tests without
+    calls, X mentioned exactly once in each re-binding and in the consumer, and nowhere afterwards)."""
+    out = list(body)
+    changed = False
+    i = 0
+    while i < len(out):
+        s = out[i]
+        if not (isinstance(s, ast.Assign) and len(s.targets) == 1 and isinstance(s.targets[0], ast.Name)
+                and (isinstance(s.value, ast.GeneratorExp) or _gen_target(P, f, s.value) is not None)):
+            i += 1
+            continue
+        X = s.targets[0].id
+        j = i + 1
+        rebinds = []
+        while j < len(out):
+            t = out[j]
+            if (isinstance(t, ast.If) and not t.orelse and len(t.body) == 1 and isinstance(t.body[0], ast.Assign) and len(t.body[0].targets) == 1
+                    and isinstance(t.body[0].targets[0], ast.Name) and t.body[0].targets[0].id == X and isinstance(t.body[0].value, ast.GeneratorExp)
+                    and _count_loads(t.body[0].value, X) == 1 and _count_loads(t.body[0].value.generators[0].iter, X) == 1
+                    and not _has_call(t.test) and _count_loads(t.test, X) == 0):
+                rebinds.append(t)
+                j += 1
+            else:
+                break
+        if j >= len(out) or not rebinds:
+            i += 1
+            continue
+        use = out[j]
+        if not (isinstance(use, (ast.Return, ast.Assign)) and use.value is not None and _count_loads(use.value, X) == 1):
+            i += 1
+            continue
+        if isinstance(use, ast.Assign) and any(_count_loads(t, X) for t in use.targets):
+            i += 1
+            continue
+        rest = out[j + 1:]
+        if any(isinstance(n, ast.Name) and n.id == X for r in rest for n in ast.walk(r)):
+            i += 1
+            continue
+
+        def build(k, cur):
+            if k == len(rebinds):
+                u = copy.deepcopy(use)
+                u.value = _Rename({X: cur}).visit(u.value)
+                return [u]
+            rb = rebinds[k]
+            nxt = _Rename({X: cur}).visit(copy.deepcopy(rb.body[0].value))
+            node = ast.If(test=copy.deepcopy(rb.test), body=build(k + 1, nxt), orelse=build(k + 1, cur))
+            ast.copy_location(node, rb)
+            return [node]
+
+        new = build(0, s.value)
+        for x in new:
+            ast.fix_missing_locations(x)
+        out = out[:i] + new + rest
+        changed = True
+        i += len(new)
+    return out, changed
 
 
 def fuse_generators(P, f):
@@ -80,6 +165,7 @@ def fuse_generators(P, f):
     if f.is_lambda:
         return None
     body = copy.deepcopy(f.node.body)
+    body, _ = split_lazy_rebinding(P, f, body)
     fake = ast.Module(body=body, type_ignores=[])
     # locals bound once to a generator call
     gens_by_name = {}
@@ -327,6 +413,35 @@ def rotate_while_true(body):
     return new, count[0]
 
 
+def _only_called(fn_node, name, lam):
+    """Every use of `name` in the function is as the callee of a call with exactly the lambda's positional parameters."""
+    la = lam.args
+    if la.vararg or la.kwarg or la.kwonlyargs or la.defaults or la.posonlyargs:
+        return False
+    called = set()
+    for n in ast.walk(fn_node):
+        if isinstance(n, ast.Call) and isinstance(n.func, ast.Name) and n.func.id == name:
+            if n.keywords or len(n.args) != len(la.args) or any(isinstance(a, ast.Starred) for a in n.args):
+                return False
+            called.add(id(n.func))
+    return all(id(n) in called for n in ast.walk(fn_node) if isinstance(n, ast.Name) and n.id == name)
+
+
+class _Beta(ast.NodeTransformer):
+    """f(a, b) with f bound to `lambda x, y: E` becomes E[x:=a, y:=b]."""
+
+    def __init__(self, lams):
+        self.lams = lams
+
+    def visit_Call(self, node):
+        self.generic_visit(node)
+        if isinstance(node.func, ast.Name) and node.func.id in self.lams:
+            lam = self.lams[node.func.id]
+            m = {p.arg: a for p, a in zip(lam.args.args, node.args)}
+            return ast.copy_location(_Rename(m).visit(copy.deepcopy(lam.body)), node)
+        return node
+
+
 def inline_helpers(P, f, depth=2, only_private=True):
     """Body of f with calls to simple helper methods/functions of the package inlined, so that "extract method" leaves the
     shape-sensitive recognisers something to recognise.  A call is inlined when it is the whole right-hand side of an
@@ -343,6 +458,7 @@ def inline_helpers(P, f, depth=2, only_private=True):
             return None, None
         g = None
         recv = None
+        nested = False
         if isinstance(call.func, ast.Attribute) and isinstance(call.func.value, ast.Name):
             owner = f
             while owner is not None and owner.cls is None:
@@ -351,13 +467,19 @@ def inline_helpers(P, f, depth=2, only_private=True):
                 g = P.method(owner.cls, call.func.attr)
                 recv = call.func.value
         elif isinstance(call.func, ast.Name):
-            q = "%s.%s" % (f.module.name, call.func.id)
-            g = P.funcs.get(q)
+            # a function defined inside f (once, at the top level of its body) comes first: it shadows a module-level one
+            local = [g_ for g_ in P.funcs.values() if g_.parent is f and not g_.is_lambda and g_.name == call.func.id]
+            if len(local) == 1 and any(s_ is local[0].node for s_ in f.node.body) and sum(1 for n in walk_local(f.node) if isinstance(n, ast.Name) and n.id == call.func.id and isinstance(n.ctx, ast.Store)) == 0:
+                g = local[0]
+                nested = True
+            elif not local:
+                q = "%s.%s" % (f.module.name, call.func.id)
+                g = P.funcs.get(q)
         if g is None or g is f or g.is_lambda or _is_generator(g.node) or g.vararg or g.kwarg:
             return None, None
         if getattr(g, "is_property", False) or g.is_classmethod:
             return None, None
-        if only_private and not g.name.startswith("_"):
+        if only_private and not nested and not g.name.startswith("_"):
             return None, None  # public helpers are part of the vocabulary the rules hook (computeRequiredWidth, ...)
         stmts = [s for s in g.node.body if not (isinstance(s, ast.Expr) and isinstance(s.value, ast.Constant))]
         rets = [n for n in walk_local(g.node) if isinstance(n, ast.Return)]
@@ -381,6 +503,7 @@ def inline_helpers(P, f, depth=2, only_private=True):
             mapping[params[0]] = recv if recv is not None else ast.Name(id="self", ctx=ast.Load())
             params = params[1:]
         given = {}
+        lam_subst = {}
         for p_, a in zip(params, call.args):
             given[p_] = a
         if len(call.args) > len(params):
@@ -402,6 +525,9 @@ def inline_helpers(P, f, depth=2, only_private=True):
                 continue
             new = "_h%d_%s" % (tag, p_)
             mapping[p_] = new
+            if isinstance(v, ast.Lambda) and not assigned_in_callee and _only_called(g.node, p_, v):
+                lam_subst[new] = v  # a lambda passed for a parameter that is only ever called: beta-reduce the calls
+                continue
             pre.append(ast.Assign(targets=[ast.Name(id=new, ctx=ast.Store())], value=copy.deepcopy(v), lineno=call.lineno, col_offset=0))
         # a helper that ends in `return <its own local>` assigned to a plain name: the local *is* that name
         last = [s_ for s_ in g.node.body if not (isinstance(s_, ast.Expr) and isinstance(s_.value, ast.Constant))]
@@ -416,6 +542,8 @@ def inline_helpers(P, f, depth=2, only_private=True):
         out = list(pre)
         for s in stmts:
             s = ren.visit(s)
+            if lam_subst:
+                s = _Beta(lam_subst).visit(s)
             if isinstance(s, ast.Return):
                 if result_target is not None:
                     val = s.value if s.value is not None else ast.Constant(value=None)
@@ -463,6 +591,10 @@ def inline_helpers(P, f, depth=2, only_private=True):
         return out
 
     new = visit(body, 1)
+    if count[0]:
+        # a local function all of whose calls were inlined is dead
+        loads = {n.id for s_ in new if not isinstance(s_, (ast.FunctionDef, ast.AsyncFunctionDef)) for n in ast.walk(s_) if isinstance(n, ast.Name) and isinstance(n.ctx, ast.Load)}
+        new = [s_ for s_ in new if not (isinstance(s_, (ast.FunctionDef, ast.AsyncFunctionDef)) and s_.name not in loads)]
     mod = ast.Module(body=new, type_ignores=[])
     ast.fix_missing_locations(mod)
     for n in ast.walk(mod):
@@ -563,3 +695,66 @@ def desugar_match(stmt):
         s._parent = parent
     _MATCH_CACHE[id(stmt)] = (stmt, out)
     return out
+
+
+# ---------------------------------------------------------------------------
+# itertools pipelines that spell an accumulate-while loop
+# ---------------------------------------------------------------------------
+
+def _it_call(e, name):
+    """Is e a call of itertools.<name> / <name> (imported from itertools)?  The spelling is enough here: the rewrite is only
+    used on generator bodies whose every other statement is inspected by the caller."""
+    if not isinstance(e, ast.Call):
+        return False
+    f = e.func
+    if isinstance(f, ast.Attribute) and f.attr == name and isinstance(f.value, ast.Name) and f.value.id in ("itertools", "it"):
+        return True
+    return isinstance(f, ast.Name) and f.id == name
+
+
+def desugar_itertools(body):
+    """`yield from takewhile(lambda r: C(r), accumulate(repeat(STEP), initial=START))` (with the source possibly bound to a
+    single-assignment local first) is the loop `r = START; while C(r): yield r; r = r + STEP`.  Returns (new body, rewrites)."""
+    binds = {}
+    for s in body:
+        if isinstance(s, ast.Assign) and len(s.targets) == 1 and isinstance(s.targets[0], ast.Name):
+            binds.setdefault(s.targets[0].id, []).append(s)
+    out = []
+    n = 0
+    drop = set()
+    for s in body:
+        e = s.value.value if isinstance(s, ast.Expr) and isinstance(s.value, ast.YieldFrom) else None
+        new = None
+        if e is not None and _it_call(e, "takewhile") and len(e.args) == 2 and not e.keywords and isinstance(e.args[0], ast.Lambda):
+            lam, src = e.args
+            srcdef = None
+            if isinstance(src, ast.Name) and len(binds.get(src.id, [])) == 1:
+                srcdef = binds[src.id][0]
+                src = srcdef.value
+            la = lam.args
+            if (len(la.args) == 1 and not la.defaults and not la.vararg and not la.kwarg and not la.kwonlyargs
+                    and _it_call(src, "accumulate") and len(src.args) == 1 and [k.arg for k in src.keywords] == ["initial"]
+                    and _it_call(src.args[0], "repeat") and len(src.args[0].args) == 1 and not src.args[0].keywords):
+                var = la.args[0].arg
+                start = src.keywords[0].value
+                step = src.args[0].args[0]
+                new = [
+                    ast.Assign(targets=[ast.Name(id=var, ctx=ast.Store())], value=copy.deepcopy(start)),
+                    ast.While(test=copy.deepcopy(lam.body), body=[
+                        ast.Expr(value=ast.Yield(value=ast.Name(id=var, ctx=ast.Load()))),
+                        ast.AugAssign(target=ast.Name(id=var, ctx=ast.Store()), op=ast.Add(), value=copy.deepcopy(step)),
+                    ], orelse=[]),
+                ]
+                for x in new:
+                    ast.copy_location(x, s)
+                    ast.fix_missing_locations(x)
+                if srcdef is not None:
+                    drop.add(id(srcdef))
+                n += 1
+        out.append((s, new))
+    res = []
+    for s, new in out:
+        if id(s) in drop:
+            continue
+        res.extend(new if new is not None else [s])
+    return res, n
